@@ -1299,7 +1299,16 @@ class ContactHandler(Messenger, dbus.service.Object):
 
     def _check_sess_term(self):
         ''' Perform post-termination logic. '''
-        if self._in_term and self._term_recv and self.is_sess_idle():
+        # Octets still waiting in the receive buffer do not count: whether they
+        # arrived with the message handled last is up to the network
+        done = (
+            self.send_buffer_used() == 0 and self.send_pending() == 0
+            and self._rx_tmp is None
+            and self._tx_tmp is None
+            and not self._tx_pend_start
+            and not self._tx_pend_ack
+        )
+        if self._in_term and self._term_recv and done:
             self._logger.info('Closing in terminating state')
             self.close()
 
